@@ -7,6 +7,7 @@
    (= [valid_filter_spec s] by C30_filter) and [is_shared_filter]. *)
 From Coq Require Import String.
 From MV Require Import Base.Val Topics.Valid Topics.ValidProofs Findings.FixedC30.
+From MV Require Hooks.Chain Auth.Acl Auth.AclProofs.
 Import VLevels.
 Open Scope N_scope.
 Open Scope list_scope.
@@ -67,9 +68,31 @@ Example C30_prefix_refuted :
   is_valid_filter_prefix (bytes_of_string "$share") true = false.
 Proof. vm_compute. repeat split. Qed.
 
+(* Server-level clause: a SUBSCRIBE filter the validator rejects (equivalently, by C30_filter, one
+   the specification rejects) is answered 0x8F (0x80 for MQTT 3) at its own position in the SUBACK,
+   is not granted, and no reachable broker state ever holds a subscription on it — whatever the
+   permission relation and the matching relation.  The subscribe path is the routing model of
+   Auth/Acl.v (C17), instantiated with the proved validator. *)
+Theorem C30_suback :
+  forall (perm : Chain.client -> bytes -> bool -> bool) (matches : bytes -> bytes -> bool)
+         (ob : bool) (ver : N) (cl : Chain.client) (fs : list (bytes * N)) (i : nat) (f : bytes) (q : N),
+  let valid := fun s => is_valid_filter s false in
+  nth_error fs i = Some (f, q) -> valid_filter_spec f = false ->
+  nth_error (fst (Acl.sub_codes perm valid ver ob cl fs)) i = Some (if (ver <? 5)%N then 128%N else 143%N) /\
+  (forall q', ~ In (f, q') (snd (Acl.sub_codes perm valid ver ob cl fs))) /\
+  (forall st c q', AclProofs.reachable perm matches valid ob st -> ~ In (c, (f, q')) (Acl.a_subs st)).
+Proof.
+  intros perm matches ob ver cl fs i f q valid Hn Hs.
+  assert (Hv : valid f = false) by (unfold valid; rewrite C30_filter; exact Hs).
+  destruct (AclProofs.subinvalid_code perm valid ob ver cl fs i f q Hn Hv) as [H1 H2].
+  split; [exact H1|]. split; [exact H2|].
+  intros st c q' Hr. exact (AclProofs.subinvalid_creates_nothing perm matches valid ob st c f q' Hr Hv).
+Qed.
+
 Print Assumptions C30_filter.
 Print Assumptions C30_topic.
 Print Assumptions C30_shared.
 Print Assumptions C30_filter_literal.
 Print Assumptions C30_levels_ok_meaning.
 Print Assumptions C30_split_join.
+Print Assumptions C30_suback.
